@@ -23,6 +23,7 @@ struct Handle {
   long result = 0; long expected_result = 0;
   std::vector<BOp> body;
   PUThread *self_seen = nullptr;
+  int ret_kind = 0;             // what the thread function returns when it simply returns: never an exit code
 };
 
 struct Key { PUThreadKey *k = nullptr; bool has_dtor = false; };
@@ -153,7 +154,13 @@ ppointer thread_fn(ppointer arg) {
   }
   at_exit_expectations(me);
   H.exiting = true;
-  return nullptr;
+  // the routine's return value is not an exit code: join yields 0 whatever is returned here
+  switch (H.ret_kind) {
+  case 1: return arg;
+  case 2: return (ppointer)(intptr_t)42;
+  case 3: return (ppointer)(intptr_t)-1;
+  default: return nullptr;
+  }
 }
 
 void foreign_body(int n_ops) {
@@ -206,6 +213,7 @@ void root() {
     Handle &H = S->hs[i];
     H.joinable = gen(3) != 0;
     H.has_name = gen(2);
+    H.ret_kind = gen(2) ? (int)gen(4) : 0;
     int n = (int)gen_range(0, tier ? 10 : 6);
     describe("%s[", H.joinable ? "J" : "D");
     for (int j = 0; j < n; j++) {
